@@ -1,5 +1,5 @@
 PROP = dict(
-        pkg="c10", level="property_based",
+        pkg="c10", level="exploration",
         rule="C10: generated summarize programs (0..3 keys incl. computed, 1..4 aggregates with where clauses) and joins (inner/left/right/anti) over generated rows; reference model where semantics are unambiguous, metamorphic equality with a baseline run for input permutations, table limits {1,2,5,10^6}, really-sorted-and-declared input, partials-out|partials-in over 1..4 shards, sort spills",
         assumptions=[
             "per-row values of key/argument/where expressions are obtained by running `yield <expr>` through the same expression evaluator; grouping, counting and aggregation over them are the harness's own",
